@@ -241,6 +241,23 @@ func (fx *fexec) externModel(key string, x *ssa.Call, f *ssa.Function, args []Va
 		return Val{Ty: rt}, true
 	case "slices.Delete":
 		return fx.slicesDelete(x, args, st, pos), true
+	case "maps.Clone":
+		// a new map object holding the same keys and values (shallow); nil stays nil
+		vc.note("extern maps.Clone: a new map with the same keys and (shallowly copied) values, nil for nil (assumed from its documentation)")
+		m := vc.under(args[0].Ty).(*types.Map)
+		pcomp, vcomp, vsort, lcomp, lsort := vc.mapComps(m)
+		psort := vc.compSort[pcomp]
+		src := args[0].T
+		ref := st.alloc
+		st.alloc = vc.define("alloc", add(st.alloc, intLit(1)))
+		ph := vc.heapGet(st, pcomp, psort)
+		vh := vc.heapGet(st, vcomp, vsort)
+		lh := vc.heapGet(st, lcomp, lsort)
+		isNil := eq(src, intLit(0))
+		vc.heapSet(st, pcomp, ite(isNil, ph, store(ph, ref, sel(ph, src))))
+		vc.heapSet(st, vcomp, ite(isNil, vh, store(vh, ref, sel(vh, src))))
+		vc.heapSet(st, lcomp, ite(isNil, lh, store(lh, ref, sel(lh, src))))
+		return Val{Ty: rt, T: vc.define(x.Name(), ite(isNil, intLit(0), ref))}, true
 	case repoModule + "/tm2/pkg/amino.MustUnmarshal", repoModule + "/tm2/pkg/amino.MustUnmarshalSized", repoModule + "/tm2/pkg/amino.MustUnmarshalAny":
 		// Must*: the same decoding, panicking when it reports an error
 		ev := fx.aminoUnmarshal(key, x, args, st, pos)
@@ -320,6 +337,11 @@ func externAssigns(vc *VC, key string, cc *ssa.CallCommon) (map[string]string, b
 				comp, srt := vc.elemComp(sl.Elem())
 				return map[string]string{comp: srt}, true
 			}
+		}
+	case "maps.Clone":
+		if m, ok := vc.under(cc.Args[0].Type()).(*types.Map); ok {
+			pcomp, vcomp, vsort, lcomp, lsort := vc.mapComps(m)
+			return map[string]string{pcomp: vc.compSort[pcomp], vcomp: vsort, lcomp: lsort}, true
 		}
 	case repoModule + "/tm2/pkg/amino.Marshal", repoModule + "/tm2/pkg/amino.MarshalSized", repoModule + "/tm2/pkg/amino.MarshalJSON",
 		repoModule + "/tm2/pkg/amino.MustMarshal", repoModule + "/tm2/pkg/amino.MustMarshalSized":
